@@ -35,6 +35,10 @@ def gen_expr(rng, depth, nleaves):
     if op == "DIV" and shape == "SC":
         c = Fraction(rng.choice([-4, -2, -1, 1, 2, 4, 8]), rng.choice([1, 2, 4, 8]))  # power of two: exact in floats
     ctype = rng.choice(["int", "float", "npfloat"]) if c.denominator == 1 else rng.choice(["float", "npfloat"])
+    if c.denominator == 1 and c >= 0 and rng.random() < 0.3:
+        ctype = rng.choice(["npuint8", "npuint16", "npuint64"])       # unsigned numpy scalars are real constants too
+    elif c.denominator == 1 and rng.random() < 0.1:
+        ctype = rng.choice(["npint8", "npint64"])
     if shape == "SC":
         return [op + "SC", gen_expr(rng, depth - 1, nleaves), [fs(c), ctype]]
     return [op + "CS", [fs(c), ctype], gen_expr(rng, depth - 1, nleaves)]
@@ -122,6 +126,8 @@ def pyconst(c):
         return int(v)
     if c[1] == "npfloat":
         return np.float64(float(v))
+    if c[1].startswith("np"):
+        return getattr(np, c[1][2:])(int(v))
     return float(v)
 
 
@@ -176,7 +182,7 @@ def eval_exact(e, draws, cnt, m):
 def eval_np(e, dists, m):
     """the same numpy operations the expression denotes, on arrays drawn left to right"""
     if e[0] == "L":
-        return dists[e[1]].rvs(m)
+        return dists[e[1]].rvs(size=m)
     if e[0] == "NEG":
         return -eval_np(e[1], dists, m)
     op, shape = e[0][:3], e[0][3:]
@@ -246,8 +252,24 @@ def run_case(case, drv):
     res.features += [f"ops:{min(nops, 6)}", f"m:{m}"]
 
     if case["mode"] == "real":
-        from scipy.stats import uniform
-        dists = [uniform(loc=2 + i, scale=2) for i in range(case["nleaves"])]
+        from scipy.stats import uniform, randint, rv_discrete
+        # frozen and UNFROZEN distributions (both are members of the package's Sampleable type): for an unfrozen one a positional
+        # argument of rvs is a shape / location parameter, not the size
+        kinds = [lambda i: uniform(loc=2 + i, scale=2), lambda i: uniform, lambda i: rv_discrete(values=([1, 2, 3], [0.25, 0.5, 0.25])),
+                 lambda i: randint(1 + i, 5 + i)]
+        dists = [kinds[(case["seed"] + i) % 4](i) for i in range(case["nleaves"])]
+        res.features += [f"leaf-kind:{(case['seed'] + i) % 4}" for i in range(case["nleaves"])]
+        # the generic helper on a bare distribution
+        from vrpqubo.examples import mirp_random as _mr
+        np.random.seed(case["seed"])
+        try:
+            got0 = _mr.sample(dists[0], size=m)
+        except Exception as ex:  # noqa
+            got0 = ex
+        np.random.seed(case["seed"])
+        want0 = dists[0].rvs(size=m)
+        if isinstance(got0, Exception) or np.shape(got0) != (m,) or not np.array_equal(np.asarray(got0), want0):
+            res.fail("sample:distribution", f"sample(<distribution kind {(case['seed']) % 4}>, size={m}) = {got0!r}, a draw of size {m} is {want0!r}")
         leaves = [sampling.WrapperSampler(d) for d in dists]
         try:
             smp = build_py(e, leaves)
